@@ -8,6 +8,8 @@ CONSTANTS
   Routes = {"inst"}
   Layouts = {"flat"}
   Slim = FALSE
+  HistKinds = {}
+  MaxLookups = 0
 INVARIANT LayeringFollowsDocs
 CHECK_DEADLOCK FALSE
 INVARIANT EmitDone
